@@ -46,6 +46,12 @@ def main():
         except Exception:
             pass
     demo_name = "demo_" + re.sub(r"[^A-Za-z0-9_]", "_", name)
+    # demonstrations of runtime-specific defects say which feature set they need (meta key "demo_cargo_args")
+    dargs = ""
+    try:
+        dargs = json.load(open(meta)).get("demo_cargo_args", "")
+    except Exception:
+        pass
     if not skip_confirm:
         sh(f"git -C {REPO} worktree remove --force {SCRATCH}")
         shutil.rmtree(SCRATCH, ignore_errors=True)
@@ -57,7 +63,7 @@ def main():
             os.makedirs(f"{SCRATCH}/tests", exist_ok=True)
             shutil.copy(demo, f"{SCRATCH}/tests/{demo_name}.rs")
             tenv = {"CARGO_TARGET_DIR": "/tmp/seedeval-target"}
-            rc, o = sh(f"cargo test --offline --test {demo_name} 2>&1 | tail -30", cwd=SCRATCH, env=tenv)
+            rc, o = sh(f"cargo test --offline {dargs} --test {demo_name} 2>&1 | tail -30", cwd=SCRATCH, env=tenv)
             ok_without = "test result: ok" in o and "FAILED" not in o
             out["confirm"]["demo_passes_without_patch"] = ok_without
             rc, o = sh(f"git apply {os.path.abspath(patch)}", cwd=SCRATCH)
@@ -67,7 +73,7 @@ def main():
             rc, o = sh("cargo test --offline --lib 2>&1 | grep -E 'test result|error' | head -5", cwd=SCRATCH, env=tenv)
             out["confirm"]["lib_tests_with_patch"] = o.strip()
             out["confirm"]["lib_tests_pass_with_patch"] = "41 passed; 0 failed" in o
-            rc, o = sh(f"timeout 600 cargo test --offline --test {demo_name} 2>&1 | tail -40", cwd=SCRATCH, env=tenv)
+            rc, o = sh(f"timeout 600 cargo test --offline {dargs} --test {demo_name} 2>&1 | tail -40", cwd=SCRATCH, env=tenv)
             fails_with = ("FAILED" in o) or ("panicked" in o) or ("timed out" in o.lower()) or rc != 0 and "test result: ok" not in o
             out["confirm"]["demo_fails_with_patch"] = bool(fails_with)
             out["confirm"]["demo_output_with_patch_tail"] = o[-1500:]
